@@ -289,6 +289,40 @@ def r8_ilp(ctx):
     ctx.check(has(fn, "return [pulp.value(_) for _ in x]"), a, "returns-all-values", "must return the value of every variable in order", node=fn)
 
 
+def r9_presence_precheck(ctx):
+    """the up-front refusal fires only when a component is really absent from one side (a negative amount, i.e. charge, counts as present)"""
+    fn, final, consts = _setup(ctx)
+    a = CHEM + ":balance_stoichiometry"
+    outer = [lp for lp in for_loops(fn) if U(lp.iter) == "cks" and lp in fn.body]
+    if len(outer) != 1:
+        raise AnalysisError("balance_stoichiometry: presence pre-check loop over cks not found")
+    lp = outer[0]
+    inner = [l2 for l2 in lp.body if isinstance(l2, ast.For)]
+    sides = {}
+    for l2 in inner:
+        side = U(l2.iter)
+        v = target_names(l2.target)[0]
+        t = None
+        for s_ in l2.body:
+            if isinstance(s_, ast.If) and any(isinstance(b, ast.Break) for b in s_.body):
+                t = s_.test
+        sides[side] = (v, t, l2)
+    for side, other in (("reactants", "products"), ("products", "reactants")):
+        if side not in sides:
+            ctx.violation(a, "presence-test:" + side, "no presence loop over %s" % side, node=lp)
+            continue
+        v, t, l2 = sides[side]
+        ok = t is not None and same(t, "substances[%s].composition.get(ck, 0) != 0" % v, scope=fn)
+        ctx.check(ok, a, "presence-test:" + side, "a component is present on the %s side iff some species has a NON-ZERO amount of it (net charge may be negative); found `%s`: anion-only sides would be "
+                  "refused although a positive balanced solution exists" % (side, U(t) if t is not None else None), node=l2)
+        # absent: refuse unless the other side carries it with both signs
+        els = l2.orelse
+        txt_ok = bool(els) and has(ast.Module(body=els, type_ignores=[]), "if any_pos and any_neg: pass else: raise ValueError(", scope=fn) and \
+            has(ast.Module(body=els, type_ignores=[]), "any(substances[pk].composition.get(ck, 0) > 0 for pk in %s)" % other, scope=fn) and \
+            has(ast.Module(body=els, type_ignores=[]), "any(substances[pk].composition.get(ck, 0) < 0 for pk in %s)" % other, scope=fn)
+        ctx.check(txt_ok, a, "absent-refused-unless-self-cancelling:" + side, "when a component is absent from the %s the reaction must be refused unless the %s carry it with both signs" % (side, other), node=l2)
+
+
 RULES = [
     Rule("C02-R1", r1_positivity, 3, "positivity guard dominates the return in all three modes"),
     Rule("C02-R2", r2_zero, 3, "zero-coefficient guard in all three modes"),
@@ -298,6 +332,7 @@ RULES = [
     Rule("C02-R6", r6_keys, 7, "one key list for matrix columns and lookup; results over given species"),
     Rule("C02-R7", r7_duplicates, 5, "duplicate search cannot fall through"),
     Rule("C02-R8", r8_ilp, 5, "ILP formulation"),
+    Rule("C02-R9", r9_presence_precheck, 4, "presence pre-check: non-zero (not positive) amount counts as present"),
 ]
 
 _POS = '    if any(x.is_negative for x in sol):\n        raise ValueError("Unable to balance: species given on the wrong side.")\n'
@@ -317,6 +352,9 @@ MUTANTS = [
     Mutant("duplicates-fall-through", [(CHEM, "            else:\n                raise ValueError(\"Failed to remove duplicate keys: %s\" % _intersect)\n", "")], "C02-R7", ""),
     Mutant("ilp-lowbound-0", [(CHEM, 'lowBound=1, cat="Integer"', 'lowBound=0, cat="Integer"')], "C02-R8", "x>=1"),
 ]
+
+MUTANTS.append(Mutant("presence-positive-only", [(CHEM, "        for rk in reactants:\n            if substances[rk].composition.get(ck, 0) != 0:", "        for rk in reactants:\n            if substances[rk].composition.get(ck, 0) > 0:")], "C02-R9", "presence-test:reactants"))
+MUTANTS.append(Mutant("ilp-int-cast", [(CHEM, "pulp.lpSum([x[i] * e for i, e in enumerate(row)])", "pulp.lpSum([x[i] * int(e) for i, e in enumerate(row)])")], "C02-R8", "A-x=0"))
 
 TWINS = [
     Twin("positivity-explicit-loop", [(CHEM, _POS, "    for coeff_ in sol:\n        if coeff_.is_negative:\n            raise ValueError(\"wrong side\")\n")]),
